@@ -5,22 +5,32 @@
 #    not asserted (a second socket on the owner's IP - sender own2 - may be relayed and may even become the reply
 #    address: both are "the client's" in this reading).
 #  * a stranger is a sender with a different source IP (127.0.0.2 / 127.0.0.3 against the owner's 127.0.0.1).
-#  * the request either declares no address (0.0.0.0:0 or a domain name) or declares the owner's own address; a client
-#    declaring somebody else's address is outside the statement and not generated.
+#  * the request declares no address (0.0.0.0:0 or a domain name), the owner's own address, or a stranger's address.
+#    Whatever is declared, over plain TCP only datagrams from the control connection's source IP may be served (the
+#    pinned code additionally requires them to match a declared address, so with a stranger's address declared nothing
+#    is relayed: fine).
+#  * SOCKS5 over WebSocket: the handler cannot see the control peer's address (wsConn.RemoteAddr() is nil).  There the
+#    owner is the address DECLARED in the request: only datagrams from that IP may be served (a stranger's datagram
+#    relayed while an owner address is known is a violation).  If nothing is declared there is no identity the server
+#    could check; the pinned code serves every sender then and the oracle demands nothing for that case.
 #  * verdicts come from the real observation only: a datagram recorded by the mesh handler whose sender is not the
 #    owner, or a reply datagram arriving on a stranger's socket.  Other differences between Socks5.tla and the code
 #    (e.g. when the reply address is fixed) are specification drift (exit 2), never a violation.
 import os
 import vf, _socks5 as S
 
-DEVS = {"DevFirstSenderBecomesClient": "OnlyOwnerRelayed RepliesOnlyToOwner ClientIsOwner"}
+INV = "OnlyOwnerRelayed RepliesOnlyToOwner ClientIsOwner"
+DEVS = {"DevFirstSenderBecomesClient": INV, "DevDeclaredOverridesPeer": INV, "DevDeclaredDroppedWhenPeerUnknown": INV}
+SITE = {"DevFirstSenderBecomesClient": "socks5.UDPAssociation.ReadLoop",
+        "DevDeclaredOverridesPeer": "socks5.UDPAssociation.isFromClient",
+        "DevDeclaredDroppedWhenPeerUnknown": "socks5.Handler.handleUDPAssociate"}
 HF = [S.COMMON, "socks5/udpassoc_test.go"]
 
 
 def udp_paths(paths, attacks=()):
     out = []
     for i, (d, p) in enumerate([("", p) for p in paths] + list(attacks)):
-        out.append({"id": i, "attack": d,
+        out.append({"id": i, "attack": d, "tr": p["init"]["cfg"]["tr"],
                     "steps": [{"tok": s["a"]["tok"], "rep": s["a"]["rep"], "res": s["a"]["res"],
                                "t": {k: s["t"][k] for k in ("assoc", "declared", "client", "relayed", "replies")}}
                               for s in p["steps"]]})
@@ -28,7 +38,7 @@ def udp_paths(paths, attacks=()):
 
 
 def run(ctx):
-    scope, maxdg, maxmr, cap = ("udp-quick", 3, 2, 1500) if ctx.quick() else ("udp-thorough", 4, 2, 40000)
+    scope, maxdg, maxmr, cap = ("udp-quick", 3, 2, 900) if ctx.quick() else ("udp-thorough", 4, 2, 40000)
     ideal, caught, devrel = S.model(ctx, scope, S.UDP_INVS, DEVS, maxdg=maxdg, maxmr=maxmr)
     paths, total, nedges, complete = S.all_programs(ideal.edges, cap=cap, rng=ctx.rng)
     attacks = S.attack_paths(devrel, cap=cap, rng=ctx.rng)
@@ -48,18 +58,22 @@ def run(ctx):
                 devrel, S.is_init, toks,
                 lambda e, i: e["a"]["res"] == tr[i]["res"] and list(e["a"]["rep"]) == list(tr[i]["rep"]) and
                 all(e["t"][k] == tr[i]["real_t"][k] for k in ("assoc", "declared", "client", "relayed", "replies")))
-            key = "Socks5:%s:%s" % (dev or "unexplained", "socks5.UDPAssociation.ReadLoop" if dev else ",".join(sorted(set(mm["bad"]))))
-            ctx.finding(key, "UDP association (declared address: %s): %s; arrival order %s; final state %s" % (
-                toks[1].get("addr"), ", ".join(mm["bad"]),
+            key = "Socks5:%s:%s" % (dev or "unexplained", SITE.get(dev) or ",".join(sorted(set(mm["bad"]))))
+            req = [t for t in toks if t["t"] == "R"][0]
+            ctx.finding(key, "UDP association (control connection over %s, declared address: %s): %s; arrival order %s; "
+                             "final state %s" % (
+                "WebSocket" if toks[0]["t"] == "WS" else "TCP", req.get("addr"), ", ".join(mm["bad"]),
                 [(t["tok"].get("s") or t["tok"]["t"]) + ("/" + t["tok"]["k"] if t["tok"].get("k") == "bad" else "")
-                 for t in mm["trace"][2:]], vf.canon(mm["trace"][-1]["real_t"])), mm)
+                 for t in mm["trace"] if t["tok"]["t"] in ("DG", "MR", "EOF")], vf.canon(mm["trace"][-1]["real_t"])), mm)
         else:
             drift.append(mm)
     ntr = 150 if ctx.quick() else 4000
     tsum, tr, v = S.trace_check(ctx, "TestZZVUdpTrace", "socks5", HF, {"ZZV_TRACES": ntr}, "c22trace")
     for x in tr.of("violation"):
-        ctx.finding("Socks5:trace:%s" % ",".join(sorted(set(b.split(":")[0] for b in x["bad"]))),
-                    "random arrival order (declared %s): %s; state %s" % (x.get("declared"), x.get("bad"), x.get("state")), x)
+        ctx.finding("Socks5:trace:%s:%s:%s" % (x.get("transport"), x.get("declared"),
+                                               ",".join(sorted(set(b.split(":")[0] for b in x["bad"])))),
+                    "random arrival order (control connection over %s, declared %s): %s; state %s" % (
+                        x.get("transport"), x.get("declared"), x.get("bad"), x.get("state")), x)
     if not ctx.violations and not ctx.known_hits:
         if drift:
             mm = drift[0]
@@ -75,8 +89,10 @@ def run(ctx):
                               "(well-formed or malformed header) and %d mesh replies per association, in any order, before "
                               "and after the control connection ends" % (
                                   "one or two ports" if not ctx.quick() else "one port", maxdg, maxmr),
-                              "ASSOCIATE request without address (0.0.0.0:0 / domain) or with the owner's address",
-                              "owner = source IP of the TCP control connection; ports not asserted",
+                              "control connection over plain TCP and over the WebSocket listener; ASSOCIATE request without "
+                              "address (0.0.0.0:0 / domain), with the owner's address or with a stranger's address",
+                              "owner = source IP of the TCP control connection (WebSocket: the declared address; nothing "
+                              "declared: no identity, nothing demanded); ports not asserted",
                               "loopback delivery of UDP datagrams is reliable and ordered per socket pair"],
                  states=ideal.distinct, transitions=nedges,
                  traces_validated_against_impl=summ["paths"] + tsum["traces"], exhaustive=bool(complete) or S.edges_covered(paths, ideal.edges), all_arrival_orders_replayed=bool(complete),
